@@ -1,6 +1,7 @@
 package ref
 
 import (
+	"bytes"
 	"github.com/ipld/go-ipld-prime/datamodel"
 	"github.com/ipld/go-ipld-prime/node/basicnode"
 )
@@ -42,6 +43,24 @@ func ImplBuild(impl string, v Val) (datamodel.Node, error) {
 	case "basic-newuint":
 		// basicnode, with every non-negative integer held by the uint-backed node (basicnode.NewUint)
 		return buildNewUint(v)
+	case "basic-readerbytes":
+		// basicnode, with every bytes value held by the reader-backed node: at the root the node
+		// NewBytesFromReader makes, below containers whatever AssignNode of such a node leaves there
+		if v.K == KBytes {
+			return basicnode.NewBytesFromReader(bytes.NewReader([]byte(v.S))), nil
+		}
+		nb := basicnode.Prototype.Any.NewBuilder()
+		if err := assignReaderBytes(nb, v); err != nil {
+			return nil, err
+		}
+		return nb.Build(), nil
+	case "basic-bytes-proto-of-reader":
+		// Prototype.Bytes' builder given a reader-backed node (it keeps a reader-backed node)
+		nb := basicnode.Prototype.Bytes.NewBuilder()
+		if err := nb.AssignNode(basicnode.NewBytesFromReader(bytes.NewReader([]byte(v.S)))); err != nil {
+			return nil, err
+		}
+		return nb.Build(), nil
 	}
 	panic("harness: unknown impl " + impl)
 }
@@ -90,6 +109,58 @@ func assignNewUint(na datamodel.NodeAssembler, v Val) error {
 		return ma.Finish()
 	}
 	return Assign(na, v)
+}
+
+func assignReaderBytes(na datamodel.NodeAssembler, v Val) error {
+	switch v.K {
+	case KBytes:
+		return na.AssignNode(basicnode.NewBytesFromReader(bytes.NewReader([]byte(v.S))))
+	case KList:
+		la, err := na.BeginList(int64(len(v.L)))
+		if err != nil {
+			return err
+		}
+		for _, c := range v.L {
+			if err := assignReaderBytes(la.AssembleValue(), c); err != nil {
+				return err
+			}
+		}
+		return la.Finish()
+	case KMap:
+		ma, err := na.BeginMap(int64(len(v.M)))
+		if err != nil {
+			return err
+		}
+		for _, e := range v.M {
+			va, err := ma.AssembleEntry(e.K)
+			if err != nil {
+				return err
+			}
+			if err := assignReaderBytes(va, e.V); err != nil {
+				return err
+			}
+		}
+		return ma.Finish()
+	}
+	return Assign(na, v)
+}
+
+// HasBytes: v holds a bytes value somewhere.
+func HasBytes(v Val) bool {
+	if v.K == KBytes {
+		return true
+	}
+	for _, c := range v.L {
+		if HasBytes(c) {
+			return true
+		}
+	}
+	for _, e := range v.M {
+		if HasBytes(e.V) {
+			return true
+		}
+	}
+	return false
 }
 
 // HasNonNegInt: v holds an integer a uint-backed node can carry.
